@@ -106,8 +106,13 @@ class Engine:
                 out.append(subcls(CLS.cid(a), CLS.cid(b)) == CLS.is_sub(a, b))
         c = z3.Int("c!q")
         out.append(z3.ForAll([c], subcls(c, c), patterns=[subcls(c, c)]))
-        d = z3.Int("d!q")
         out.append(z3.ForAll([c], subcls(c, CLS.cid("object")), patterns=[subcls(c, CLS.cid("object"))]))
+        # the built-in container kinds are mutually exclusive (no class derives from two of them)
+        kinds = ["list", "tuple", "dict", "set", "frozenset"]
+        for i, a in enumerate(kinds):
+            for b in kinds[i + 1:]:
+                out.append(z3.ForAll([c], z3.Not(z3.And(subcls(c, CLS.cid(a)), subcls(c, CLS.cid(b)))),
+                                     patterns=[subcls(c, CLS.cid(a)), subcls(c, CLS.cid(b))]))
         return out
 
     def base_axioms(self):
@@ -1232,6 +1237,14 @@ class Engine:
                 else:
                     out.append(r)
             return out
+        if isinstance(a, PBuiltin) and a.name == "sys.version_info" and isinstance(b, PTuple):
+            try:
+                want = tuple(z3.simplify(i_of(x)).as_long() for x in b.items)
+            except Exception:
+                raise Unsupported("sys.version_info comparison")
+            cur = (3, 12)
+            r = {ast.Lt: cur < want, ast.LtE: cur <= want, ast.Gt: cur > want, ast.GtE: cur >= want}[type(op)]
+            return [Res("ok", st, vbool(z3.BoolVal(r)))]
         # ordering: numeric only
         if isinstance(a, (int,)):
             a = self.const(a)
@@ -1260,6 +1273,8 @@ class Engine:
                 r = self.models.equals(self, st, a, b, fx)
                 if r is not None:
                     return r
+            from .vals import kn_axioms
+            st.assume(*kn_axioms([a, b]))
             return [Res("ok", st, vbool(py_eq(a, b)))]
         return [Res("ok", st, vbool(self.same(st, a, b)))]
 
@@ -1344,7 +1359,50 @@ class Engine:
     def ex_Starred(self, e, st, fx):
         raise Unsupported("starred expression")
 
+    def pure_quantifier(self, e, st, fx):
+        """any(<elt> for x in <seq>) / all(...) where evaluating <elt> has no effect: an exists/forall term"""
+        g = e.args[0]
+        if len(g.generators) != 1 or g.generators[0].ifs or not isinstance(g.generators[0].target, ast.Name):
+            raise Unsupported("any/all over a complex generator expression")
+        is_any = e.func.id == "any"
+        out = []
+        for r in self.ev(g.generators[0].iter, st, fx):
+            if r.kind != "ok":
+                out.append(r)
+                continue
+            for r2 in self.iter_plan(r.st, r.val, fx):
+                if r2.kind != "ok":
+                    out.append(r2)
+                    continue
+                p, s0 = r2.val, r2.st
+                i = fresh("qi", I)
+                probe = s0.fork()
+                probe.assume(i >= 0, i < p.n)
+                probe.env = dict(probe.env)
+                probe.env[g.generators[0].target.id] = p.at(probe, i)
+                nob = len(self.obligations)
+                rs = self.ev(g.elt, probe, fx)
+                if len(rs) != 1 or rs[0].kind != "ok" or any(not rs[0].st.heap[c].eq(s0.heap[c]) for c in s0.heap):
+                    raise Unsupported("any/all over an element expression with effects or several outcomes")
+                # facts learnt while evaluating the element (callee postconditions) hold for every index
+                extra = rs[0].st.pc[len(probe.pc):]
+                t = self.truthy(rs[0].st, rs[0].val)
+                rng = z3.And(i >= 0, i < p.n)
+                if isinstance(p.n, int):
+                    rng = z3.And(i >= 0, i < z3.IntVal(p.n))
+                # what the callees guarantee holds for every index (their preconditions are obliged for every index)
+                if extra:
+                    s0.assume(z3.ForAll([i], z3.Implies(rng, z3.And(*extra))))
+                q = z3.Exists([i], z3.And(rng, t)) if is_any else z3.ForAll([i], z3.Implies(rng, t))
+                for ob in self.obligations[nob:]:
+                    ob.hyps = list(ob.hyps)          # call-pre obligations inside the element: for every index
+                out.append(Res("ok", s0, vbool(q)))
+        return out
+
     def ex_Call(self, e, st, fx):
+        if (isinstance(e.func, ast.Name) and e.func.id in ("any", "all") and len(e.args) == 1 and not e.keywords
+                and isinstance(e.args[0], ast.GeneratorExp) and e.func.id not in st.env):
+            return self.pure_quantifier(e, st, fx)
         # super() needs the static context
         if isinstance(e.func, ast.Name) and e.func.id == "super" and not e.args and "super" not in st.env:
             if fx.defcls is None:
